@@ -4,6 +4,7 @@ import (
 	"context"
 	"errors"
 	"fmt"
+	"unicode/utf8"
 
 	"go.opentelemetry.io/otel/attribute"
 	"go.opentelemetry.io/otel/metric"
@@ -140,6 +141,10 @@ func (lp *logProcessor[INPUT, OUTPUT]) forgeLog(
 	parameters Parameters[INPUT],
 	fn func(ctx context.Context, store Store, schema *ledger.Schema, parameters Parameters[INPUT]) (*OUTPUT, error),
 ) (*ledger.Log, *OUTPUT, bool, error) {
+	if n := utf8.RuneCountInString(parameters.IdempotencyKey); n > MaxIdempotencyKeyLength {
+		return nil, nil, false, ErrIdempotencyKeyTooLong{length: n}
+	}
+
 	txStore, _, err := store.BeginTX(ctx, nil)
 	if err != nil {
 		return nil, nil, false, fmt.Errorf("failed to start transaction: %w", err)
